@@ -34,6 +34,8 @@ CLAIMS["C10"] = ("partial, strong: 16-cell identity table of the comparator incl
     "decision tables with opaque memcmp atoms, path-sensitive effect counting and typestate per entry, value flow of hash arguments")
 CLAIMS["C01"] = ("partial: the per-record match table (12 cells), the covering test of the lookup incl. the shape of its bit-extraction atoms, agreement of all five traversals on child polarity and level, and the RFC 6811 result discipline of the validation function incl. reason bookkeeping are decided on all paths; that the trie has the right shape after arbitrary insert/remove histories and the bit arithmetic of the extraction helpers are NOT decided, so this is a necessary-condition check, not a decision of validation correctness",
     "decision tables over comparison-only inputs with opaque atoms, sibling cross-check of traversals, path-sensitive typestate of the validation loop")
+CLAIMS["C02"] = ("partial: record identity at element and node level (decision tables), the complete return-code/effect table of add and remove incl. the root pointer per address family, removal by source (own-source filter, same slot and same node re-examined, both children, both families, error propagation), payload-triple discipline of the node swaps, and exactly-once enumeration with all five fields; that trie_insert/trie_remove keep the path invariant for every history is NOT decided",
+    "decision tables with forked callee results, loop-structure matching, straight-line content simulation of node swaps")
 NA = {}
 def main():
     props = [json.loads(l) for l in open(os.path.join(HERE, "properties.jsonl"))]
